@@ -116,5 +116,13 @@ def r02_7(ctx):
 r02_7.rule_id = "R02.7"
 
 
-RULES = [r02_1, r02_2, r02_3, r02_4, r02_5, r02_6, r02_7]
-FLOORS = {"R02.1": 2, "R02.2": 12, "R02.3": 4, "R02.4": 4, "R02.4a": 2, "R02.5": 5, "R02.6": 2, "R02.7": 4}
+def r02_8(ctx):
+    F = ctx.need("cds::gc::dhp::smr::alloc_thread_data")[0]
+    n = smr.rule_list_push(ctx, "R02.8", F, "thread_list_", "next_", "A thread whose record is not in thread_list_ publishes hazard pointers that no scan reads (C02).")
+    if n < 1:
+        ctx.broken("no winning push onto thread_list_ found in alloc_thread_data")
+r02_8.rule_id = "R02.8"
+
+
+RULES = [r02_1, r02_2, r02_3, r02_4, r02_5, r02_6, r02_7, r02_8]
+FLOORS = {"R02.1": 2, "R02.2": 12, "R02.3": 4, "R02.4": 4, "R02.4a": 2, "R02.5": 5, "R02.6": 2, "R02.7": 4, "R02.8": 1}
